@@ -4450,3 +4450,76 @@ func ruleOperandOrder(c *ctx.Ctx, r *core.Reporter) {
 	r.Check(len(bad) == 0, "order", badSite, fmt.Sprintf("%d templates take both operands; in each the left operand comes first and unconditionally, or the site is guarded by !HasSideEffect(e.X)%s", n, ternary(len(bad) > 0, fmt.Sprintf(" — the right operand is evaluated first, or the left one only on one branch: %v", bad), "")))
 	r.Check(n >= 20, "templates", "compiler", fmt.Sprintf("%d two-operand templates examined", n))
 }
+
+// ruleC11ArrayBufferOffset: the backing array of a []byte may be a typed-array VIEW that starts inside its
+// buffer (a slice internalized from `new Uint8Array(buf, 8, 4)` or from a pooled Node.js Buffer). Whoever
+// goes from the slice down to `$array.buffer` has to add the view's byteOffset to the slice's $offset.
+func ruleC11ArrayBufferOffset(c *ctx.Ctx, r *core.Reporter) {
+	r.Begin("C11.arraybuffer-offset", "F-KEY", "js.NewArrayBuffer cuts the backing buffer at byteOffset + $offset of the slice, not at $offset alone", 2)
+	fd := c.FuncDecl("js", "NewArrayBuffer")
+	if fd == nil {
+		r.Undecided("NewArrayBuffer", "js/js.go", "not found")
+		return
+	}
+	// the call that reaches into `.buffer` and slices it
+	var cut *ast.CallExpr
+	ast.Inspect(fd.Body, func(x ast.Node) bool {
+		ce, ok := x.(*ast.CallExpr)
+		if !ok || len(ce.Args) < 2 {
+			return true
+		}
+		if se, ok := ce.Fun.(*ast.SelectorExpr); ok && se.Sel.Name == "Call" && strings.Contains(exprStr(se.X), `"buffer"`) && exprStr(ce.Args[0]) == `"slice"` {
+			cut = ce
+		}
+		return true
+	})
+	if cut == nil {
+		// another route: a copy made from the view itself (`array.Call("slice", a, b).Get("buffer")`) starts at
+		// byte 0 of a fresh buffer; only a direct read of the view's buffer needs the byteOffset
+		direct := false
+		ast.Inspect(fd.Body, func(x ast.Node) bool {
+			if ce, ok := x.(*ast.CallExpr); ok && len(ce.Args) == 1 && exprStr(ce.Args[0]) == `"buffer"` {
+				if se, ok := ce.Fun.(*ast.SelectorExpr); ok && se.Sel.Name == "Get" && !strings.Contains(exprStr(se.X), ".Call(") && !strings.Contains(exprStr(se.X), ".New(") {
+					direct = true
+				}
+			}
+			return true
+		})
+		if direct {
+			r.Undecided("start", c.Pos(fd.Pos()), "NewArrayBuffer reads the backing array's buffer in a way this rule does not know")
+			return
+		}
+		r.OK("start", c.Pos(fd.Pos()), "NewArrayBuffer does not read the backing array's buffer directly (a copy of a view starts at byte 0)")
+		r.OK("end", c.Pos(fd.Pos()), "as above")
+		return
+	}
+	// does expression e depend (through locals) on a Get of the given property?
+	var depends func(e ast.Expr, prop string, depth int) bool
+	depends = func(e ast.Expr, prop string, depth int) bool {
+		found := false
+		ast.Inspect(e, func(x ast.Node) bool {
+			switch y := x.(type) {
+			case *ast.BasicLit:
+				if y.Value == `"`+prop+`"` {
+					found = true
+				}
+			case *ast.Ident:
+				if depth < 4 {
+					for _, d := range localAssignments(fd, y.Name) {
+						if depends(d.rhs, prop, depth+1) {
+							found = true
+						}
+					}
+				}
+			}
+			return !found
+		})
+		return found
+	}
+	start, end := cut.Args[1], ast.Expr(nil)
+	if len(cut.Args) > 2 {
+		end = cut.Args[2]
+	}
+	r.Check(depends(start, "$offset", 0) && depends(start, "byteOffset", 0), "start", c.Pos(cut.Pos()), fmt.Sprintf("the start `%s` is made of the slice's $offset and the backing array's byteOffset", exprStr(start)))
+	r.Check(end != nil && depends(end, "$length", 0) && depends(end, "byteOffset", 0), "end", c.Pos(cut.Pos()), "the end is the start plus $length, so it moves with byteOffset as well")
+}
